@@ -38,6 +38,169 @@ Proof.
   unfold zlen, enc_batch. rewrite !app_length, !be_len. lia.
 Qed.
 
+(* ---------- fixed-width big-endian integers and the batch header round trip ---------- *)
+Lemma ube_app l x : ube (l ++ [x]) = ube l * 256 + x.
+Proof. unfold ube. rewrite fold_left_app. reflexivity. Qed.
+
+Lemma ube_be w : forall v, ube (be w v) = v mod 256 ^ Z.of_nat w.
+Proof.
+  induction w as [|w IH]; intros v.
+  - cbn. now rewrite Z.mod_1_r.
+  - cbn [be]. rewrite ube_app, IH. rewrite Nat2Z.inj_succ, Z.pow_succ_r by lia.
+    assert (0 < 256 ^ Z.of_nat w) by (apply Z.pow_pos_nonneg; lia).
+    rewrite (Z.rem_mul_r v 256 (256 ^ Z.of_nat w)) by lia. lia.
+Qed.
+
+Lemma sbe_be w h v :
+  256 ^ Z.of_nat w = 2 * h -> - h <= v < h -> sbe (be w v) = v.
+Proof.
+  intros Hm Hv. unfold sbe. rewrite ube_be. unfold zlen. rewrite be_len, Hm.
+  replace (2 * h / 2) with h by (rewrite Z.mul_comm, Z.div_mul; lia).
+  destruct (Z_lt_le_dec v 0) as [Hneg|Hpos].
+  - assert (v mod (2 * h) = v + 2 * h) as ->.
+    { symmetry. apply (Z.mod_unique v (2 * h) (-1)); lia. }
+    assert (v + 2 * h <? h = false) as -> by (apply Z.ltb_ge; lia). lia.
+  - rewrite Z.mod_small by lia. assert (v <? h = true) as -> by (apply Z.ltb_lt; lia). reflexivity.
+Qed.
+
+Lemma take_app n a rest : length a = n -> take n (a ++ rest) = Some (a, rest).
+Proof.
+  intros H. unfold take. rewrite app_length, H.
+  assert ((n + length rest <? n)%nat = false) as -> by (apply Nat.ltb_ge; lia).
+  rewrite <- H. rewrite firstn_app, firstn_all, Nat.sub_diag, skipn_app, skipn_all, Nat.sub_diag.
+  cbn [firstn skipn app]. now rewrite app_nil_r.
+Qed.
+
+(* header fields within the ranges of their Go types *)
+Definition hdr_in_range (b : batch) : Prop :=
+  - 9223372036854775808 <= b_first b < 9223372036854775808 /\
+  - 2147483648 <= b_ple b < 2147483648 /\ - 128 <= b_magic b < 128 /\
+  - 32768 <= b_attrs b < 32768 /\ - 2147483648 <= b_lod b < 2147483648 /\
+  - 9223372036854775808 <= b_fts b < 9223372036854775808 /\
+  - 9223372036854775808 <= b_mts b < 9223372036854775808 /\
+  - 9223372036854775808 <= b_pid b < 9223372036854775808 /\
+  - 32768 <= b_pepoch b < 32768 /\ - 2147483648 <= b_fseq b < 2147483648.
+
+Lemma dec_enc_batch b :
+  hdr_in_range b -> - 2147483648 <= b_crc b < 2147483648 -> - 2147483648 <= b_num b < 2147483648 ->
+  b_len b = 49 + zlen (b_recs b) -> b_len b < 2147483648 ->
+  dec_batch (enc_batch b) = Some b.
+Proof.
+  intros (H0 & H2 & H3 & H5 & H6 & H7 & H8 & H9 & H10 & H11) H4 H12 Hlen Hlt.
+  pose proof (zlen_nonneg (b_recs b)) as Hr.
+  unfold enc_batch, dec_batch.
+  repeat (rewrite take_app by apply be_len; cbv beta iota).
+  rewrite (sbe_be 8 9223372036854775808 (b_first b)) by (try reflexivity; lia).
+  rewrite (sbe_be 4 2147483648 (b_len b)) by (try reflexivity; lia).
+  rewrite (sbe_be 4 2147483648 (b_ple b)) by (try reflexivity; lia).
+  rewrite (sbe_be 1 128 (b_magic b)) by (try reflexivity; lia).
+  rewrite (sbe_be 4 2147483648 (b_crc b)) by (try reflexivity; lia).
+  rewrite (sbe_be 2 32768 (b_attrs b)) by (try reflexivity; lia).
+  rewrite (sbe_be 4 2147483648 (b_lod b)) by (try reflexivity; lia).
+  rewrite (sbe_be 8 9223372036854775808 (b_fts b)) by (try reflexivity; lia).
+  rewrite (sbe_be 8 9223372036854775808 (b_mts b)) by (try reflexivity; lia).
+  rewrite (sbe_be 8 9223372036854775808 (b_pid b)) by (try reflexivity; lia).
+  rewrite (sbe_be 2 32768 (b_pepoch b)) by (try reflexivity; lia).
+  rewrite (sbe_be 4 2147483648 (b_fseq b)) by (try reflexivity; lia).
+  rewrite (sbe_be 4 2147483648 (b_num b)) by (try reflexivity; lia).
+  cbv zeta. rewrite Hlen.
+  replace (49 + zlen (b_recs b) - 49) with (zlen (b_recs b)) by lia.
+  assert (zlen (b_recs b) <? 0 = false) as -> by (apply Z.ltb_ge; lia).
+  rewrite Z.ltb_irrefl. cbn [orb].
+  unfold zlen. rewrite Nat2Z.id, firstn_all.
+  destruct b; cbn in *. subst. reflexivity.
+Qed.
+
+(* ---------- framing: splitting a partition into batches and joining them again ---------- *)
+Definition framed (bt : batch * bytes) : Prop :=
+  12 <= zlen (snd bt) /\ sbe (firstn 4 (skipn 8 (snd bt))) = zlen (snd bt) - 12 /\
+  dec_batch (snd bt) = Some (fst bt).
+
+Lemma split_step fuel buf : buf <> [] ->
+  split_batches (S fuel) buf =
+    if zlen buf <? 12 then None else
+    let len := sbe (firstn 4 (skipn 8 buf)) in
+    let total := 12 + len in
+    if (len <? 0) || (zlen buf <? total) then None else
+    let bb := firstn (Z.to_nat total) buf in
+    match dec_batch bb with
+    | None => None
+    | Some b =>
+        match split_batches fuel (skipn (Z.to_nat total) buf) with
+        | None => None
+        | Some l => Some ((b, bb) :: l)
+        end
+    end.
+Proof. destruct buf; [contradiction|reflexivity]. Qed.
+
+Lemma len_field_prefix (raw rest : bytes) : 12 <= zlen raw ->
+  firstn 4 (skipn 8 (raw ++ rest)) = firstn 4 (skipn 8 raw).
+Proof.
+  intros H. unfold zlen in H. rewrite skipn_app, firstn_app, skipn_length.
+  replace (4 - (length raw - 8))%nat with 0%nat by lia.
+  rewrite firstn_O. now rewrite app_nil_r.
+Qed.
+
+Lemma split_framed : forall bts fuel,
+  Forall framed bts -> (length (join_batches bts) < fuel)%nat ->
+  split_batches fuel (join_batches bts) = Some bts.
+Proof.
+  induction bts as [|[b raw] bts IH]; intros fuel Hf Hfuel.
+  - destruct fuel; reflexivity.
+  - inversion Hf as [|? ? Hh Ht]; subst. destruct Hh as (H12 & Hlen & Hdec). cbn [fst snd] in *.
+    unfold join_batches in *. cbn [flat_map snd] in *. fold (join_batches bts) in *.
+    destruct fuel as [|fuel]; [lia|].
+    assert (raw ++ join_batches bts <> []) as Hne.
+    { destruct raw; [unfold zlen in H12; cbn in H12; lia|discriminate]. }
+    rewrite split_step by exact Hne. rewrite len_field_prefix by exact H12. rewrite Hlen.
+    pose proof (zlen_nonneg (join_batches bts)) as Hr.
+    assert (zlen (raw ++ join_batches bts) <? 12 = false) as -> by (apply Z.ltb_ge; rewrite zlen_app; lia).
+    cbv zeta.
+    assert (zlen raw - 12 <? 0 = false) as -> by (apply Z.ltb_ge; lia).
+    replace (12 + (zlen raw - 12)) with (zlen raw) by lia.
+    assert (zlen (raw ++ join_batches bts) <? zlen raw = false) as -> by (apply Z.ltb_ge; rewrite zlen_app; lia).
+    cbn [orb]. assert (Z.to_nat (zlen raw) = length raw) as -> by (unfold zlen; apply Nat2Z.id).
+    rewrite firstn_app, firstn_all, Nat.sub_diag, skipn_app, skipn_all, Nat.sub_diag.
+    cbn [firstn skipn app]. rewrite app_nil_r, Hdec.
+    rewrite IH; [reflexivity|exact Ht|]. rewrite app_length in Hfuel.
+    assert (0 < length raw)%nat by (unfold zlen in H12; lia). lia.
+Qed.
+
+Lemma split_gives_framed : forall fuel buf bts, split_batches fuel buf = Some bts -> Forall framed bts.
+Proof.
+  induction fuel as [|fuel IH]; intros buf bts H.
+  - destruct buf; cbn in H; [inversion H; constructor|discriminate].
+  - destruct buf as [|x buf]; [cbn in H; inversion H; constructor|].
+    rewrite split_step in H by discriminate.
+    destruct (zlen (x :: buf) <? 12) eqn:E12; [discriminate|]. apply Z.ltb_ge in E12.
+    cbv zeta in H. remember (sbe (firstn 4 (skipn 8 (x :: buf)))) as len eqn:Elen.
+    remember (12 + len) as total eqn:Etot.
+    destruct ((len <? 0) || (zlen (x :: buf) <? total)) eqn:Eo; [discriminate|].
+    apply orb_false_iff in Eo as [E1 E2]. apply Z.ltb_ge in E1. apply Z.ltb_ge in E2.
+    destruct (dec_batch (firstn (Z.to_nat total) (x :: buf))) as [b|] eqn:Ed; [|discriminate].
+    destruct (split_batches fuel (skipn (Z.to_nat total) (x :: buf))) as [l|] eqn:El; [|discriminate].
+    injection H as Hb. subst bts. constructor; [|eapply IH; eauto].
+    unfold framed. cbn [fst snd].
+    assert (Hl : zlen (firstn (Z.to_nat total) (x :: buf)) = total).
+    { unfold zlen in *. rewrite firstn_length_le by lia. lia. }
+    rewrite Hl. split; [lia|]. split; [|exact Ed].
+    replace (total - 12) with len by lia. rewrite Elen.
+    rewrite skipn_firstn_comm, firstn_firstn. f_equal. f_equal. lia.
+Qed.
+
+Lemma wrap32_range z : - 2147483648 <= wrap32 z < 2147483648.
+Proof. unfold wrap32. pose proof (Z.mod_pos_bound (z + 2147483648) 4294967296). lia. Qed.
+Lemma wrap16_range z : - 32768 <= wrap16 z < 32768.
+Proof. unfold wrap16. pose proof (Z.mod_pos_bound (z + 32768) 65536). lia. Qed.
+
+Lemma len_field_enc b : firstn 4 (skipn 8 (enc_batch b)) = be 4 (b_len b).
+Proof.
+  unfold enc_batch.
+  rewrite skipn_app, skipn_all2 by (rewrite be_len; lia). rewrite be_len. cbn [Nat.sub skipn app].
+  rewrite firstn_app, firstn_all2 by (rewrite be_len; lia). rewrite be_len. cbn [Nat.sub firstn].
+  now rewrite app_nil_r.
+Qed.
+
 Lemma store_get_skip key p new s :
   ~ In key (map fst new) -> store_get key (new ++ (key, p) :: s) = Some p.
 Proof.
@@ -300,6 +463,214 @@ Section Proofs.
     - intros st rs rs' st' ch H. split; [eapply process_records_length; eauto|eapply process_records_unflagged; eauto].
     - intros. eapply process_batch_unchanged; eauto.
     - intros. eapply process_partition_unchanged; eauto.
+  Qed.
+
+  (* ---------- lifting to batches, partitions and the whole request ---------- *)
+  Lemma NoDup_suffix {A} (u l : list A) : NoDup (u ++ l) -> NoDup l.
+  Proof. induction u as [|x u IH]; cbn; intros H; [exact H|]. inversion H; subst. auto. Qed.
+
+  Lemma ext_nodup st st' : ext st st' -> NoDup (map fst (u_supply st)) -> NoDup (map fst (u_supply st')).
+  Proof. intros (used & new & U1 & _ & _) H. rewrite U1, map_app in H. eapply NoDup_suffix; eauto. Qed.
+
+  Lemma process_records_nochange cfg : forall rs st rs' st',
+    process_records cfg st rs = Ok (rs', st', false) ->
+    rs' = rs /\ st' = st /\ Forall (fun r => flagged r = false) rs.
+  Proof.
+    induction rs as [|r rs IH]; intros st rs' st' H; cbn in H.
+    - inversion H; subst. auto.
+    - destruct (process_record cfg st r) as [[[r1 st1] ch1]| |] eqn:E1; try discriminate.
+      destruct (process_records cfg st1 rs) as [[[rs2 st2] ch2]| |] eqn:E2; try discriminate.
+      inversion H as [[Hr Hs Hc]]; subst. apply orb_false_iff in Hc as [-> ->].
+      destruct (flagged r) eqn:Hf.
+      + destruct (process_record_flagged _ _ _ _ _ _ Hf E1) as [Hx _]. discriminate.
+      + rewrite process_record_unflagged in E1 by exact Hf. inversion E1; subst.
+        destruct (IH _ _ _ E2) as (-> & -> & Hall). auto.
+  Qed.
+
+  Definition rebuilt (b : batch) (rs' : list rec) (bt' : batch * bytes) : Prop :=
+    exists used,
+      compress_records ((b_attrs b) mod 8) (enc_records rs') = (b_recs (fst bt'), used) /\
+      snd bt' = enc_batch (fst bt') /\ same_header b (fst bt') /\
+      b_len (fst bt') = wrap32 (zlen (snd bt') - 12) /\
+      b_crc (fst bt') = wrap32 (crc32c (skipn 21 (snd bt'))) /\
+      b_attrs (fst bt') = wrap16 (b_attrs b - (b_attrs b) mod 8 + used) /\
+      b_num (fst bt') = wrap32 (zlen rs').
+
+  (* what C31 says about one input/output batch pair: the records (as the proxy decodes
+     them) are related by [rec_rel]; the batch is either returned as is, or re-encoded *)
+  Definition batch_ok (cfg : config) (store : list (bytes * bytes)) (bt bt' : batch * bytes) : Prop :=
+    exists rs rs',
+      batch_records (fst bt) = Some rs /\ Forall2 (rec_rel cfg store) rs rs' /\
+      ((bt' = bt /\ rs' = rs /\ Forall (fun r => flagged r = false) rs) \/ rebuilt (fst bt) rs' bt').
+
+  Lemma process_batch_ok cfg st bt bt' st' ch stF :
+    process_batch cfg st bt = Ok (bt', st', ch) ->
+    NoDup (map fst (u_supply st)) -> ext st' stF ->
+    batch_ok cfg (u_store stF) bt bt'.
+  Proof.
+    intros H Hnd HF. destruct ch.
+    - destruct bt as [b raw], bt' as [b' raw'].
+      destruct (process_batch_changed _ _ _ _ _ _ _ H) as (rs & rs' & used & B1 & B2 & B3 & B4 & B5 & B6 & B7 & B8 & B9).
+      exists rs, rs'. split; [exact B1|]. split; [eapply process_records_spec; eauto|].
+      right. exists used. cbn [fst snd]. repeat (split; [assumption|]). assumption.
+    - pose proof (process_batch_unchanged _ _ _ _ _ H) as ->.
+      unfold Rewrite.process_batch in H.
+      destruct (batch_records (fst bt)) as [records|] eqn:Eb; [|discriminate].
+      destruct (b_num (fst bt) <? 0); [discriminate|].
+      destruct records as [|r0 records].
+      { exists [], []. split; [exact Eb|]. split; [constructor|]. left. auto. }
+      destruct (process_records cfg st (r0 :: records)) as [[[rs' st1] c]| |] eqn:Ep; try discriminate.
+      destruct c.
+      { cbn [negb] in H. destruct (compress_records (b_attrs (fst bt) mod 8) (enc_records rs')) as [payload used].
+        destruct (rebuild_batch (fst bt) payload used (zlen rs')). inversion H. }
+      cbn [negb] in H. inversion H; subst st1.
+      destruct (process_records_nochange _ _ _ _ _ Ep) as (-> & _ & Hall).
+      exists (r0 :: records), (r0 :: records). split; [exact Eb|].
+      split; [eapply process_records_spec; eauto|]. left. auto.
+  Qed.
+
+  Lemma process_batches_ext cfg : forall bts st bts' st' ch,
+    process_batches cfg st bts = Ok (bts', st', ch) -> ext st st'.
+  Proof.
+    induction bts as [|bt bts IH]; intros st bts' st' ch H; cbn in H.
+    - inversion H; subst. apply ext_refl.
+    - destruct (process_batch cfg st bt) as [[[bt1 st1] ch1]| |] eqn:E1; try discriminate.
+      destruct (process_batches cfg st1 bts) as [[[l st2] ch2]| |] eqn:E2; try discriminate.
+      inversion H; subst. eapply ext_trans; [eapply process_batch_ext; eauto|eapply IH; eauto].
+  Qed.
+
+  Lemma process_batches_ok cfg : forall bts st bts' st' ch stF,
+    process_batches cfg st bts = Ok (bts', st', ch) ->
+    NoDup (map fst (u_supply st)) -> ext st' stF ->
+    Forall2 (batch_ok cfg (u_store stF)) bts bts' /\ (ch = false -> bts' = bts).
+  Proof.
+    induction bts as [|bt bts IH]; intros st bts' st' ch stF H Hnd HF; cbn in H.
+    - inversion H; subst. split; [constructor|reflexivity].
+    - destruct (process_batch cfg st bt) as [[[bt1 st1] ch1]| |] eqn:E1; try discriminate.
+      destruct (process_batches cfg st1 bts) as [[[l st2] ch2]| |] eqn:E2; try discriminate.
+      inversion H; subst; clear H.
+      pose proof (process_batch_ext _ _ _ _ _ _ E1) as X1.
+      pose proof (process_batches_ext _ _ _ _ _ _ E2) as X2.
+      destruct (IH _ _ _ _ stF E2 (ext_nodup _ _ X1 Hnd) HF) as [IH1 IH2].
+      split.
+      + constructor; [|exact IH1]. eapply process_batch_ok; [exact E1|exact Hnd|eapply ext_trans; eauto].
+      + intros Hc. apply orb_false_iff in Hc as [-> ->]. rewrite (IH2 eq_refl).
+        now rewrite (process_batch_unchanged _ _ _ _ _ E1).
+  Qed.
+
+  Lemma split_join : forall fuel buf bts, split_batches fuel buf = Some bts -> join_batches bts = buf.
+  Proof.
+    induction fuel as [|fuel IH]; intros buf bts H.
+    - destruct buf; cbn in H; [inversion H; reflexivity|discriminate].
+    - destruct buf as [|x buf]; [cbn in H; inversion H; reflexivity|].
+      cbn [split_batches] in H.
+      destruct (zlen (x :: buf) <? 12); [discriminate|].
+      set (len := sbe (firstn 4 (skipn 8 (x :: buf)))) in *.
+      destruct ((len <? 0) || (zlen (x :: buf) <? 12 + len)); [discriminate|].
+      destruct (dec_batch (firstn (Z.to_nat (12 + len)) (x :: buf))) as [b|]; [|discriminate].
+      destruct (split_batches fuel (skipn (Z.to_nat (12 + len)) (x :: buf))) as [l|] eqn:El; [|discriminate].
+      inversion H; subst. unfold join_batches. cbn [flat_map snd].
+      fold (join_batches l). rewrite (IH _ _ El). apply firstn_skipn.
+  Qed.
+
+  (* one partition of the request *)
+  Definition partition_ok (cfg : config) (store : list (bytes * bytes)) (p p' : bytes) : Prop :=
+    exists bts bts',
+      split_batches (S (length p)) p = Some bts /\ p' = join_batches bts' /\
+      Forall2 (batch_ok cfg store) bts bts'.
+
+  Lemma process_partition_ext cfg st p p' st' ch :
+    process_partition cfg st p = Ok (p', st', ch) -> ext st st'.
+  Proof.
+    unfold Rewrite.process_partition. intros H. destruct p as [|x p]; [inversion H; subst; apply ext_refl|].
+    destruct (split_batches (S (length (x :: p))) (x :: p)) as [bts|]; [|discriminate].
+    destruct (process_batches cfg st bts) as [[[bts' st1] c]| |] eqn:Eb; try discriminate.
+    apply process_batches_ext in Eb. destruct c; inversion H; subst; exact Eb.
+  Qed.
+
+  Lemma process_partition_ok cfg st p p' st' ch stF :
+    process_partition cfg st p = Ok (p', st', ch) ->
+    NoDup (map fst (u_supply st)) -> ext st' stF ->
+    partition_ok cfg (u_store stF) p p'.
+  Proof.
+    unfold Rewrite.process_partition. intros H Hnd HF. destruct p as [|x p].
+    { inversion H; subst. exists [], []. repeat split. constructor. }
+    destruct (split_batches (S (length (x :: p))) (x :: p)) as [bts|] eqn:Es; [|discriminate].
+    destruct (process_batches cfg st bts) as [[[bts' st1] c]| |] eqn:Eb; try discriminate.
+    exists bts, bts'. split; [exact Es|].
+    destruct c; inversion H; subst.
+    - split; [reflexivity|]. eapply process_batches_ok; eauto.
+    - destruct (process_batches_ok _ _ _ _ _ _ stF Eb Hnd HF) as [Hok Heq].
+      rewrite (Heq eq_refl) in *. split; [symmetry; eapply split_join; eauto|exact Hok].
+  Qed.
+
+  Notation process_partitions := (process_partitions decode_rec decompress compress crc32c hashf enc_env).
+
+  Lemma process_partitions_ext cfg : forall ps st ps' st' ch,
+    process_partitions cfg st ps = Ok (ps', st', ch) -> ext st st'.
+  Proof.
+    induction ps as [|p ps IH]; intros st ps' st' ch H; cbn in H.
+    - inversion H; subst. apply ext_refl.
+    - destruct (process_partition cfg st p) as [[[p1 st1] ch1]| |] eqn:E1; try discriminate.
+      destruct (process_partitions cfg st1 ps) as [[[l st2] ch2]| |] eqn:E2; try discriminate.
+      inversion H; subst. eapply ext_trans; [eapply process_partition_ext; eauto|eapply IH; eauto].
+  Qed.
+
+  (* the whole request: every partition, every batch, every record, w.r.t. the object store
+     at the end of the request *)
+  Theorem request_ok cfg : forall ps st ps' st' ch,
+    process_partitions cfg st ps = Ok (ps', st', ch) ->
+    NoDup (map fst (u_supply st)) ->
+    forall stF, ext st' stF -> Forall2 (partition_ok cfg (u_store stF)) ps ps'.
+  Proof.
+    induction ps as [|p ps IH]; intros st ps' st' ch H Hnd stF HF; cbn in H.
+    - inversion H; subst. constructor.
+    - destruct (process_partition cfg st p) as [[[p1 st1] ch1]| |] eqn:E1; try discriminate.
+      destruct (process_partitions cfg st1 ps) as [[[l st2] ch2]| |] eqn:E2; try discriminate.
+      inversion H; subst; clear H.
+      pose proof (process_partition_ext _ _ _ _ _ _ E1) as X1.
+      pose proof (process_partitions_ext _ _ _ _ _ _ E2) as X2.
+      constructor.
+      + eapply process_partition_ok; [exact E1|exact Hnd|eapply ext_trans; eauto].
+      + eapply IH; [exact E2|eapply ext_nodup; eauto|exact HF].
+  Qed.
+
+  (* ---------- the rewritten partition splits again into exactly the rewritten batches ---------- *)
+  Lemma rebuilt_framed b rs' bt' :
+    rebuilt b rs' bt' -> hdr_in_range b -> zlen (snd bt') - 12 < 2147483648 -> framed bt'.
+  Proof.
+    intros (used & _ & Hraw & Hsame & Hlen & Hcrc & Hattr & Hnum) Hr Hsz.
+    destruct bt' as [b' raw']. cbn [fst snd] in *.
+    destruct Hsame as (S0 & S2 & S3 & S6 & S7 & S8 & S9 & S10 & S11).
+    destruct Hr as (R0 & R2 & R3 & R5 & R6 & R7 & R8 & R9 & R10 & R11).
+    pose proof (zlen_nonneg (b_recs b')) as Hp.
+    assert (Hl : zlen raw' = 61 + zlen (b_recs b')) by (rewrite Hraw; apply enc_batch_len).
+    assert (Hlen' : b_len b' = 49 + zlen (b_recs b')).
+    { rewrite Hlen, wrap32_id by lia. lia. }
+    unfold framed. cbn [fst snd]. split; [lia|]. split.
+    - rewrite Hraw at 1. rewrite len_field_enc.
+      rewrite (sbe_be 4 2147483648 (b_len b')) by (try reflexivity; lia). lia.
+    - rewrite Hraw. apply dec_enc_batch; try lia.
+      + unfold hdr_in_range. rewrite S0, S2, S3, S6, S7, S8, S9, S10, S11, Hattr.
+        pose proof (wrap16_range (b_attrs b - b_attrs b mod 8 + used)). repeat split; lia.
+      + rewrite Hcrc. apply wrap32_range.
+      + rewrite Hnum. apply wrap32_range.
+  Qed.
+
+  Theorem partition_resplit cfg store p bts bts' :
+    split_batches (S (length p)) p = Some bts ->
+    Forall2 (batch_ok cfg store) bts bts' ->
+    Forall (fun bt => hdr_in_range (fst bt)) bts ->
+    Forall (fun bt' => zlen (snd bt') - 12 < 2147483648) bts' ->
+    split_batches (S (length (join_batches bts'))) (join_batches bts') = Some bts'.
+  Proof.
+    intros Hs Hok Hr Hsz. apply split_gives_framed in Hs.
+    apply split_framed; [|lia].
+    revert Hs Hr Hsz. induction Hok as [|bt bt' bts bts' H1 H2 IH]; intros Hs Hr Hsz; [constructor|].
+    inversion Hs; subst. inversion Hr; subst. inversion Hsz; subst.
+    constructor; [|apply IH; assumption].
+    destruct H1 as (rs & rs' & _ & _ & [[-> _]|Hreb]); [assumption|].
+    eapply rebuilt_framed; eauto.
   Qed.
 
   (* ---------- re-decoding the rewritten records ---------- *)
